@@ -48,9 +48,16 @@ def units(tier):
         w = width_for(n) if n <= 10 else 72
 
         def b_list(ctx, cls=cls, n=n):
+            # the whole-bank list as read_all builds it: complete, or cut off at any location of the value (the unit's
+            # last accessible location falls inside / before it), or with one of the value's locations not implemented
+            shape = ctx.choose_int(ctx.int("shape", 0, 2 * n), "list shape")
             lst = [None] * 256
             for i, loc in enumerate(cls.locations):
                 lst[loc.address] = ctx.int("r%d" % i, 0, 255)
+            if 1 <= shape <= n:
+                lst = lst[:cls.locations[shape - 1].address]
+            elif shape > n:
+                lst[cls.locations[shape - n - 1].address] = None
             return (cls, lst)
         U.append(Unit("C11/%s/from_list" % nm, "C11", K + "MemoryValue.from_list", b_list, width=w,
                       spec=CM.spec_from_list, max_paths=200000))
@@ -222,6 +229,9 @@ def extra_checks(tier, seed):
                 "witness": {"problems": bad[:4]}, "replay": {"problems": bad[:4]}})
     return out
 
+
+# checks whose proof units establish the callee contracts applied here (re-verified by this check, see main.dependency_units)
+DEPENDENCIES = []
 
 META = {
     "level": "proof",
